@@ -249,12 +249,14 @@ def numQubit (gates : List Gate) : Except Err Nat :=
   | [] => .error .value
   | i :: rest => .ok (rest.foldl max i + 1)
 
-/-- `tmpR[index] = r_loc; tmpS[index[:,None], index] = S_loc` on top of the identity (`clifford.py:157-166`) -/
+/-- `tmpR[index] = r_loc; tmpS[index[:,None], index] = S_loc` on top of the identity (`clifford.py:157-166`),
+`index = [q…, q+n…]`: a local bit array `w` is scattered to the positions `index` (`place`), column `index[b]` of the
+result is the scattered local column `b`, all other columns are unit vectors -/
 def embed (n : Nat) (loc : Tab) (qs : List Nat) : Tab :=
   let index := qs ++ qs.map (· + n)
-  let k2 := index.length
-  let place := fun (w : Nat) => (List.range k2).foldl (fun acc a => if w.testBit a then acc ^^^ 2 ^ (index.getD a 0) else acc) 0
-  let pos := fun (j : Nat) => (List.range k2).find? (fun b => index.getD b 0 == j)
+  let unit := index.map fun i => 2 ^ i
+  let place := fun (w : Nat) => matVec unit w index.length
+  let pos := fun (j : Nat) => (List.range index.length).find? (fun b => index.getD b 0 == j)
   { n := n
     r := place loc.r
     cols := (List.range (2 * n)).map fun j =>
